@@ -28,7 +28,8 @@ REQUIRED = ["iff_checked:plurality", "iff_checked:approval", "iff_checked:superm
             "tally_taken_together_with_a_contest_of_another_n_winners", "ballots_in_pooled_batches_with_batch_means_set",
             "margin_checked:sub_collection", "contest_identifier_assigned_after_assertions_were_made", "marks_held_in_a_dict_subclass", "vote_bearing_records_flagged_phantom", "contests_of_more_than_65536_ballots",
             "margin_from_tally_asked_while_the_test_holds_the_comparison_bound",
-            "supermajority_built_with_a_share_argument_that_differs_from_the_contests"]
+            "supermajority_built_with_a_share_argument_that_differs_from_the_contests",
+            "margin_checked:assertion_method_with_the_callers_style_flag"]
 ASSUMPTIONS = ["shares f in {1/2,1/4,1/8} (f and 1/(2f) both dyadic) are exact in binary; inexact shares (2/3, 0.6) are only evaluated at a "
                "distance from the threshold that rounding cannot bridge", "a mark for a name that is not on the contest's "
                "candidate list (write-in) appears only on ballots with no mark for a listed candidate, so that no "
@@ -320,6 +321,20 @@ def run_case(prof, rec):
                     rec.violation("c02.range", f"{kind}:assorter_value_out_of_range",
                                   {"value": v, "upper_bound": a.assorter.upper_bound, "ballot": cv.votes})
                     return
+    # the assertion-level margin method (reached through the class: the instance attribute of the same name holds the last
+    # stored margin): twice the mean minus one over the collection and under the style flag the CALLER names
+    with np.errstate(all="ignore"):
+        for name, a in asns.items():
+            ok, mg = rec.guard(f"c02.call:Assertion.margin:{kind}", type(a).margin, a, cvrs, use_style)
+            if not ok:
+                return
+            rec.count("margin_checked:assertion_method_with_the_callers_style_flag")
+            want_ = 2 * means[name] - 1
+            if not (math.isclose(float(mg), want_, rel_tol=1e-12, abs_tol=1e-15) or (mg != mg and want_ != want_)):
+                rec.violation("c02.margin", f"{kind}:assertion_margin_method_is_not_twice_the_mean_minus_one",
+                              {"assertion": name, "margin": float(mg), "2*mean-1": want_, "use_style": use_style,
+                               "cards_lacking_the_contest": sum(1 for b in ballots if b is None)})
+                return
     # ---- the iff ---------------------------------------------------------------------------------------
     n_listed = sum(1 for b in ballots if b is not None)
     if kind in ("plurality", "approval"):
